@@ -816,6 +816,43 @@ def register_all(M):
             out.append(Str(cur))
         return SeqIt(out)
     M.add(r"core::str::<impl str>::lines", str_lines)
+
+    def str_replace(c, m, a):
+        hay = list(as_str(a[0]).chars)
+        pat = deref(a[1])
+        pat = [pat] if isinstance(pat, SInt) else list(as_str(pat).chars)
+        to = list(as_str(a[2]).chars)
+        if not pat:
+            raise Unsupported("str::replace with an empty pattern")
+        out = []
+        i = 0
+        n, k = len(hay), len(pat)
+        while i < n:
+            if i + k <= n:
+                hit = z_and([char_eq(x, y) for x, y in zip(hay[i:i + k], pat)])
+                if c.decide(hit):
+                    out.extend(to)
+                    i += k
+                    continue
+            out.append(hay[i])
+            i += 1
+        return StringBuf(out)
+    M.add(r"core::str::<impl str>::replace::<.*>", str_replace)
+
+    def str_parse(c, m, a):
+        ty = m.group("ty")
+        s = as_str(a[0])
+        if not all(ch.concrete for ch in s.chars):
+            raise Unsupported("str::parse on symbolic text")
+        text = "".join(chr(ch.v) for ch in s.chars)
+        if re.fullmatch(r"[+-]?[0-9]+", text) and not (text.startswith("-") and ty.startswith("u")):
+            v = int(text)
+            bits = INT_BITS[ty]
+            lo, hi = (-(1 << (bits - 1)), (1 << (bits - 1)) - 1) if ty in SIGNED else (0, (1 << bits) - 1)
+            if lo <= v <= hi:
+                return ok(mk_int(v, ty))
+        return err(Opaque("ParseIntError"))
+    M.add(r"core::str::<impl str>::parse::<(?P<ty>usize|u8|u16|u32|u64|i32|i64|isize)>", str_parse)
     M.add(r"core::str::<impl str>::repeat", lambda c, m, a: StringBuf(list(as_str(a[0]).chars) * conc(a[1], "repeat count")))
 
     def to_string(c, m, a):
@@ -829,7 +866,18 @@ def register_all(M):
     M.add(r"char::methods::<impl char>::is_whitespace", lambda c, m, a: sbool(is_whitespace(deref(a[0]))))
     M.add(r"char::methods::<impl char>::is_ascii_digit", lambda c, m, a: sbool(in_ranges(deref(a[0]), [(48, 57)])))
     M.add(r"char::methods::<impl char>::is_ascii", lambda c, m, a: sbool(in_ranges(deref(a[0]), [(0, 127)])))
-    M.add(r"char::methods::<impl char>::len_utf8", lambda c, m, a: usize(c.cwidth(deref(a[0]))))
+    CH = r"char::methods::<impl char>::"
+    M.add(CH + r"is_control", lambda c, m, a: sbool(in_ranges(deref(a[0]), [(0, 0x1f), (0x7f, 0x9f)])))
+    M.add(CH + r"is_ascii_control", lambda c, m, a: sbool(in_ranges(deref(a[0]), [(0, 0x1f), (0x7f, 0x7f)])))
+    M.add(CH + r"is_ascii_alphabetic", lambda c, m, a: sbool(in_ranges(deref(a[0]), [(65, 90), (97, 122)])))
+    M.add(CH + r"is_ascii_alphanumeric", lambda c, m, a: sbool(in_ranges(deref(a[0]), [(48, 57), (65, 90), (97, 122)])))
+    M.add(CH + r"is_ascii_lowercase", lambda c, m, a: sbool(in_ranges(deref(a[0]), [(97, 122)])))
+    M.add(CH + r"is_ascii_uppercase", lambda c, m, a: sbool(in_ranges(deref(a[0]), [(65, 90)])))
+    M.add(CH + r"is_ascii_hexdigit", lambda c, m, a: sbool(in_ranges(deref(a[0]), [(48, 57), (65, 70), (97, 102)])))
+    M.add(CH + r"is_ascii_whitespace", lambda c, m, a: sbool(in_ranges(deref(a[0]), [(9, 10), (12, 13), (32, 32)])))
+    M.add(CH + r"is_ascii_graphic", lambda c, m, a: sbool(in_ranges(deref(a[0]), [(33, 126)])))
+    M.add(CH + r"is_ascii_punctuation", lambda c, m, a: sbool(in_ranges(deref(a[0]), [(33, 47), (58, 64), (91, 96), (123, 126)])))
+    M.add(CH + r"len_utf8", lambda c, m, a: usize(c.cwidth(deref(a[0]))))
     M.add(r"<char as PartialEq>::eq", lambda c, m, a: sbool(char_eq(deref(a[0]), deref(a[1]))))
     M.add(r"<char as PartialEq>::ne", lambda c, m, a: sbool(z_not(char_eq(deref(a[0]), deref(a[1])))))
 
@@ -1194,8 +1242,25 @@ def register_all(M):
     M.add(IT + r"::filter::<.*>", lambda c, m, a: FilterIt(it_of(a[0]), a[1]))
     M.add(IT + r"::filter_map::<.*>", lambda c, m, a: FilterMapIt(it_of(a[0]), a[1]))
     M.add(IT + r"::chain::<.*>", lambda c, m, a: ChainIt(it_of(a[0]), to_iter(c, a[1])))
+    class FlattenIt(It):
+        def __init__(self, inner):
+            self.inner = inner
+            self.cur = None
+
+        def next(self, ctx):
+            while True:
+                if self.cur is not None:
+                    v = self.cur.next(ctx)
+                    if v is not None:
+                        return v
+                    self.cur = None
+                nxt = self.inner.next(ctx)
+                if nxt is None:
+                    return None
+                self.cur = to_iter(ctx, nxt)
+    M.add(IT + r"::flatten", lambda c, m, a: FlattenIt(it_of(a[0])))
     M.add(IT + r"::peekable", lambda c, m, a: PeekableIt(it_of(a[0])))
-    M.add(IT + r"::copied|" + IT + r"::cloned", lambda c, m, a: MapIt(it_of(a[0]), lambda c2, args: deep_clone(deref(args[0]))))
+    M.add(IT + r"::copied::<.*>|" + IT + r"::cloned::<.*>|" + IT + r"::copied|" + IT + r"::cloned", lambda c, m, a: MapIt(it_of(a[0]), lambda c2, args: deep_clone(deref(args[0]))))
     M.add(IT + r"::count", lambda c, m, a: usize(len(drain(c, it_of(a[0])))))
     M.add(IT + r"::last", lambda c, m, a: (lambda xs: some(xs[-1]) if xs else none())(drain(c, it_of(a[0]))))
 
@@ -1269,7 +1334,7 @@ def register_all(M):
         args = a[1]
         args = list(args.fields) if isinstance(args, Agg) and args.ty == "tuple" else ([] if args is UNIT else [args])
         return c.call_callable(a[0], args)
-    M.add(r"<\{closure@.*\} as Fn(?:Once|Mut)?<.*>>::call(?:_once|_mut)?|<&(?:mut )?\{closure@.*\} as Fn(?:Once|Mut)?<.*>>::call(?:_once|_mut)?", closure_call)
+    M.add(r"<\{closure@.*\} as Fn(?:Once|Mut)?<.*>>::call(?:_once|_mut)?|<&(?:mut )?\{closure@.*\} as Fn(?:Once|Mut)?<.*>>::call(?:_once|_mut)?|<[A-Z][A-Za-z0-9]* as Fn(?:Once|Mut)?<.*>>::call(?:_once|_mut)?", closure_call)
 
     # ---- fmt ---------------------------------------------------------------------------------
     M.add(r"core::fmt::rt::Argument::new_display::<.*>", lambda c, m, a: Agg("FmtArg", "display", [a[0]]))
